@@ -739,6 +739,26 @@ class Sem:
 # call graph (P1)
 
 
+_SERDE = {"serde", "serde_core", "postcard", "toml", "toml_edit", "serde_json", "bincode", "serde_yaml", "ron"}
+
+
+def _first_seg(path):
+    path = (path or "").lstrip("<&")
+    return re.split(r"::|<| ", path, 1)[0]
+
+
+def _crate_family(callee):
+    c = _first_seg(callee)
+    return "serde" if c in _SERDE else c
+
+
+def _trait_family(impl_fn_path):
+    """crate family of the trait in `<T as trait>::item` or `a::b::<impl trait for T>::item`"""
+    m = re.search(r" as ([A-Za-z0-9_]+)::", impl_fn_path) or re.search(r"<impl ([A-Za-z0-9_]+)::", impl_fn_path)
+    c = m.group(1) if m else ""
+    return "serde" if c in _SERDE else c
+
+
 def norm_callee(c):
     return c or "<unknown>"
 
@@ -815,10 +835,12 @@ class CallGraph:
                 if callee is None:
                     continue
                 for ty in c.get("at", ()):
+                    fam = _crate_family(callee)
                     for adt, paths in ext_impls.items():
                         if adt in ty:
                             for q in paths:
-                                if q in world.fns:
+                                # only traits of the callee's own crate family can be called back by it
+                                if q in world.fns and _trait_family(q) == fam:
                                     self.edges[p].add(q)
                 targets = [callee]
                 if c["r"] in ("trait", "dyn") and c.get("tm"):
